@@ -1,5 +1,5 @@
 """Registry: for each property, which correspondences, oracles and budgets make up its check."""
-from . import i3_card, i1_logic, i5_comb
+from . import i3_card, i1_logic, i5_comb, i4_text
 
 TB_COMMON = [
     "Lean 4.33.0 kernel (thorough tier: re-checked with leanchecker)",
@@ -9,7 +9,38 @@ TB_COMMON = [
     "CPython and pycryptosat (used by the oracle to enumerate models of emitted clauses)",
 ]
 
+def _replay27(ctx, r):
+    with i4_text._Tmp() as tmp:
+        x = i4_text.c27_case(r["vals"], r["nv"], r["support"], tmp)
+        if x:
+            ctx.fail("C27: " + x, r)
+
+
+def _replay28(ctx, r):
+    with i4_text._Tmp() as tmp:
+        x = i4_text.c28_case(r["vals"], r["reqs"], r["nv"], tmp, r.get("sol"))
+        if x:
+            ctx.fail("C28: " + x, r)
+
+
 REGISTRY = {
+    "C27": {
+        "correspondence": [i4_text.corr_text],
+        "oracle": [i4_text.oracle_c27],
+        "oracle_budget": {"quick": 20, "thorough": 240},
+        "replay": _replay27,
+        "trusted_base": TB_COMMON + ["str.split / int() / str(int): text is modelled as token lines; the driver's tokenizer and renderer are checked per instance (rendered text compared byte for byte, re-tokenised text equals the token lines)",
+                                     "pycryptosat returns a model of the clauses it was given (every returned model is re-checked by the oracle)"],
+        "assumptions": ["no clause is empty (the compiler never emits one; both readers silently drop empty clauses)"],
+    },
+    "C28": {
+        "correspondence": [i4_text.corr_opb, lambda ctx: i3_card.corr_card(ctx, include=("assert",))],
+        "oracle": [i4_text.oracle_c28],
+        "oracle_budget": {"quick": 20, "thorough": 240},
+        "replay": _replay28,
+        "trusted_base": TB_COMMON + ["Gurobi is absent: the OPB text is given its standard pseudo-Boolean meaning (SPModel.Text.OpbRow.holds); what an ILP solver does with it is not observed"],
+        "assumptions": ["request variables are positive literals"],
+    },
     "C13": {
         "correspondence": [i5_comb.corr_comb],
         "oracle": [i5_comb.oracle_c13],
